@@ -221,6 +221,14 @@ def check(ctx):
         N_ = _I(repo).eval(ast.parse("GeckoConfig.PROTOCOL_RETRY_COUNT", mode="eval").body, {"__mod__": repo.method(BASE, "retry").mod, "__class__": None})
     except (_PR, _UD):
         N_ = None
+    if not isinstance(N_, int):
+        # the handler module itself does not name the configuration: read the table in force at import
+        try:
+            N_ = _I(repo).eval(ast.parse("GeckoConfig.PROTOCOL_RETRY_COUNT", mode="eval").body, {"__mod__": (repo.cls("_GeckoIdleConfig", False) or repo.cls("_GeckoConfig")).mod, "__class__": None})
+        except (_PR, _UD):
+            N_ = None
+    if not isinstance(N_, int):
+        raise AnalysisError("GeckoConfig.PROTOCOL_RETRY_COUNT does not evaluate to an integer - the configured retry budget is unknown to C20.R5")
     seen_b = set()
     for cname_, builder_, args_, _exp, _desc in _c04.message_table():
         if builder_ not in ("request", "full_request", "set_value", "keypress") or (cname_, builder_) in seen_b or cname_ == "GeckoPingProtocolHandler":
@@ -232,6 +240,10 @@ def check(ctx):
         ok = "raises" not in pr and pr["timeout"] is not None and pr["timeout"] > 0 and pr["budget"] >= 1 and (not isinstance(N_, int) or pr["budget"] == N_) and pr["flags"]
         ctx.ob("R5", f"{m.qual}::armed", ok, f"{m.qual} builds a request with {pr}: expected a positive timeout, a retry budget of GeckoConfig.PROTOCOL_RETRY_COUNT = {N_} and a failure callback that flags it for removal", m.loc)
     ctx.floor("R5", "request builders", n_b, 9)
+    # ... under every table: a budget taken from another member that happens to hold the same number somewhere
+    # (PROTOCOL_TIMEOUT_IN_SECONDS for PROTOCOL_RETRY_COUNT) shows under the table whose members all differ
+    from ..handlermodel import armed_under_every_table
+    armed_under_every_table(ctx, repo, "R5", why=" - the handshake step is not retried")
     # ... and an answer that cannot be decoded does not retire the request: the engine contains the exception and the
     # request must stay registered (it times out, is retransmitted, and the next good answer continues the chain) -
     # a request flagged for removal by a damaged answer is dropped after ONE transmission
